@@ -11,7 +11,8 @@ radii (numbers and every unit name). Part "large" (c06_large.py): regular
 grids of 200 and 5000 points with the structured permutation family. Part
 "many" (c06_many.py): one call with n query points for every n up to a bound.
 Part "history" (c06_history.py): several indexes alive at once. Part "radius"
-(c06_radius.py): spellings of a metre-scale radius and numpy scalars.
+(c06_radius.py): spellings of a metre-scale radius and numpy scalars. Part
+"repr" (c06_repr.py): the positions as float32 and integer arrays.
 """
 import itertools
 import math
@@ -23,7 +24,7 @@ driver.setup_env()
 import numpy as np                                    # noqa: E402
 
 from checks import (c06_history, c06_large, c06_many,   # noqa: E402
-                    c06_model as model, c06_radius)
+                    c06_model as model, c06_radius, c06_repr)
 
 PROP = "C06"
 LEVEL = "exploration"
@@ -50,13 +51,19 @@ RULE = ("Small part: build arrays = every sequence (with repetition) of "
         "km), and with these two numbers. One evaluation = one query() "
         "call; all are distinct inputs by construction. Non-trivial = at "
         "least one pair is expected.")
-RULE += " ".join(["", c06_radius.RULE, c06_large.RULE, c06_many.RULE,
-                  c06_history.RULE])
+RULE += " ".join(["", c06_radius.RULE, c06_repr.RULE, c06_large.RULE,
+                  c06_many.RULE, c06_history.RULE])
 ASSUMPTIONS = [
     "the Earth is the sphere of radius typhon.constants.earth_radius",
-    "lat, lon are passed as float64 numpy arrays (lists and scalars are "
-    "rejected by _to_metric although the docstring allows them); lon in "
-    "[-180, 180]",
+    "lat, lon are passed as 1-d numpy arrays (lists and scalars are "
+    "rejected by _to_metric with a ValueError although the docstring of "
+    "query() allows them): float64 everywhere, float32 / int64 / int32 in "
+    "the representation part only, on lattices whose coordinates these "
+    "types hold exactly; lon in [-180, 180]. A float32 or integer array "
+    "denotes the same numbers as its float64 conversion, so the same pairs "
+    "and distances (same tolerance) are demanded: arithmetic in the "
+    "narrower type is not accepted (it moves a point by up to 1.2 m, "
+    "which loses coincident points at a radius of 1 m)",
     "metric='haversine' with tree_class='KD' is rejected by scikit-learn "
     "(ValueError in the constructor) and is outside the domain; each "
     "explicit spelling (metric='minkowski', tree_class='KD', 'Ball') occurs "
@@ -208,7 +215,7 @@ def shards(tier, seed):
         nchunks = min(len(build_inputs(part)), math.ceil(total / 60000))
         out += [("small", part, k, nchunks) for k in range(nchunks)]
     return out + c06_radius.shards(tier, seed) + \
-        c06_large.shards(tier, seed) + c06_many.shards(tier, seed) + \
+        c06_repr.shards(tier, seed) + c06_large.shards(tier, seed) + c06_many.shards(tier, seed) + \
         c06_history.shards(tier, seed)
 
 
@@ -290,7 +297,8 @@ def run_small(res, seam, shard):
 def run_shard(shard):
     res = driver.ShardResult()
     for e in lattice_errors() + c06_radius.lattice_errors() + \
-            c06_large.lattice_errors() + c06_many.lattice_errors():
+            c06_repr.lattice_errors() + c06_large.lattice_errors() + \
+            c06_many.lattice_errors():
         res.error(e)
     if res.errors:
         return res
@@ -303,6 +311,8 @@ def run_shard(shard):
             c06_history.run(res, seam, shard, replay)
         elif shard[0] == "radius":
             c06_radius.run(res, seam, shard, replay)
+        elif shard[0] == "repr":
+            c06_repr.run(res, seam, shard, replay)
         else:
             run_small(res, seam, shard)
     return res
@@ -338,6 +348,8 @@ def replay(case):
             bad = c06_history.replay(seam, case)
         elif case["part"] == "radius":
             bad = c06_radius.replay(seam, case)
+        elif case["part"] == "repr":
+            bad = c06_repr.replay(seam, case)
         else:
             bad = replay_small(seam, case)
     if bad is None:
